@@ -96,6 +96,38 @@ class Ctx:
         """CFG nodes of f whose statement/condition contains the AST node `sub`."""
         return self.cfg(f).stmt_nodes_containing(sub)
 
+    def helper_of(self, f: FuncInfo):
+        """(caller, call site) when f is a private method with exactly one call site, in another method of its own class (the shape an
+        extract-method refactoring produces); None otherwise."""
+        if f.cls is None or not f.name.startswith("_") or f.name.endswith("__") or isinstance(f.node, ast.Lambda):
+            return None
+        sites = [s for s in self.callers(f) if s.kind == "call"]
+        if len(sites) != 1 or sites[0].func is f or sites[0].func.cls is None:
+            return None
+        if sites[0].func.cls is not f.cls and f.cls not in sites[0].func.cls.mro:
+            return None
+        return sites[0].func, sites[0].node
+
+    def owner(self, f: FuncInfo, depth: int = 3) -> FuncInfo:
+        """The method whose body f's statements belong to when extracted single-caller helpers are read as part of their caller."""
+        for _ in range(depth):
+            h = self.helper_of(f)
+            if h is None:
+                break
+            f = h[0]
+        return f
+
+    def facts_inlined(self, f: FuncInfo, sub: ast.AST, depth: int = 3) -> Set[Tuple[str, bool]]:
+        """facts_at, plus - for a single-caller private helper - the facts that hold at its call site (in the caller's names)."""
+        out = set(self.facts_at(f, sub))
+        for _ in range(depth):
+            h = self.helper_of(f)
+            if h is None:
+                break
+            out |= set(self.facts_at(h[0], h[1]))
+            f = h[0]
+        return out
+
     def facts_at(self, f: FuncInfo, sub: ast.AST) -> Set[Tuple[str, bool]]:
         """Literals that hold whenever expression `sub` (somewhere in f's body) is evaluated.
         With several CFG copies of the statement (finally duplication) the intersection is returned."""
